@@ -69,7 +69,7 @@ Qed.
 Fixpoint lowers (o : op) (r : re) {struct o} : Prop :=
   match o with
   | OAtom cs => unnc r = RSeq (map RChar cs) \/ (exists c, cs = [c] /\ unnc r = RChar c)
-  | OCls set => exists pr, leaf_pred (unnc r) = Some pr /\ forall c, mem set c = pr c
+  | OCls set => exists pr, leaf_pred (unnc r) = Some pr /\ forall c, In c input -> mem set c = pr c
   | OBol => unnc r = RBol
   | OEol => unnc r = REol
   | ONothing | OEnd => unnc r = RSeq []
@@ -218,7 +218,7 @@ Proof.
         -- split; [intros []|intros (_ & H2 & _); discriminate].
   - (* Cls *)
     destruct Hl as (pr & Hpr & Hmem). rewrite (leaf_ends _ _ _ Hpr). unfold one_char, char_at.
-    destruct (nth_error input p) as [c|]; [|reflexivity]. rewrite Hmem. reflexivity.
+    destruct (nth_error input p) as [c|] eqn:Ec; [|reflexivity]. rewrite (Hmem c (nth_error_In _ _ Ec)). reflexivity.
   - (* Capture *)
     destruct Hl as (r' & Hr & Hl). rewrite Hr. destruct Hpl as [Hpl _].
     change (ends (RGroup g r') p) with (ends r' p). apply IHo; auto.
